@@ -73,7 +73,7 @@ FuncCalls == << "substr(name, 6, 3)", "substr(name, 40)", "substr(name, -30, 2)"
                 "format_size(size, '%.4294967296')", "format_size(99999999999999999999, '%.1')", "substr(name, 1, 99999999999999999999)", "rand(99999999999999999999)",
                 "power(99999999999999999999, 2)", "year(99999999999999999999)", "lower(name", "concat(name, 'a'", "substr(name, 1,",
                 "year()", "year(0)", "month(size)", "day('31')", "dow('x y z')", "year('2017-02-30')", "day('0000-00-00')",
-                "rand(0)", "rand(5, 1)", "rand(x)", "rand(1, x)", "contains()", "contains(name)", "has_xattr()", "xattr()", "has_cap()",
+                "rand(0)", "rand(5, 1)", "rand(3, 3)", "rand(-7, -7)", "rand(0, 0)", "rand(1, 2)", "rand(x)", "rand(1, x)", "contains()", "contains(name)", "has_xattr()", "xattr()", "has_cap()",
                 "curdate(1)", "current_uid(x)", "min()", "max(name)", "avg(name)", "sum(name)", "count()", "var_pop(name)", "stddev(mode)" >>
 Opts == <<"-c", "--config", "/c", "-i", "/i", "-v", "/?", "--nocolor", "--help", "-h", "/x", "--no-color", "-", "--">>
 Argvs == [i \in 1 .. Len(Opts) |-> <<Opts[i]>>]
